@@ -28,7 +28,7 @@ CONSTANTS
   KeepPagesWritable = FALSE
   TrampFlushed = TRUE
   UserCalls = TRUE
-  MaxUserCalls = 2
+  MaxUserCalls = 1
   InstallKinds = {"jump"}
   Faults = {}
   SiteReuse = TRUE
